@@ -106,6 +106,7 @@ def extract_printed(out):
     """All top-level `<<"TAG", ...>>` tuples printed by PrintT (possibly wrapped over lines)."""
     res = []
     i = 0
+    out = out.replace('<< "', '<<"')
     while True:
         j = out.find('<<"', i)
         if j < 0:
